@@ -199,7 +199,7 @@ pub fn chain_1200(audio: Vec<f32>, sr: f32) -> (Blocks, NCReadStream<Vec<u8>>) {
 }
 
 /// examples/ax25-9600-rx.rs with the zero-crossing clock recovery block.
-pub fn chain_9600(iq: Vec<Complex>, sr: f32) -> (Blocks, NCReadStream<Vec<u8>>) {
+pub fn chain_9600(iq: Vec<Complex>, sr: f32, g3ruh_ctor: bool) -> (Blocks, NCReadStream<Vec<u8>>) {
     let mut g: Blocks = Vec::new();
     macro_rules! add {
         ($e:expr) => {{
@@ -216,7 +216,8 @@ pub fn chain_9600(iq: Vec<Complex>, sr: f32) -> (Blocks, NCReadStream<Vec<u8>>) 
     let prev = add!(ZeroCrossing::new(prev, 50_000.0 / 9600.0, 0.1));
     let prev = add!(BinarySlicer::new(prev));
     let prev = add!(NrziDecode::new(prev));
-    let prev = add!(Descrambler::new(prev, 0x21, 0, 16));
+    // the named constructor and the explicit G3RUH parameters are the same descrambler
+    let prev = if g3ruh_ctor { add!(Descrambler::new_g3ruh(prev)) } else { add!(Descrambler::new(prev, 0x21, 0, 16)) };
     let (hdlc, out) = HdlcDeframer::new(prev, 10, 1500);
     g.push(Box::new(hdlc));
     (g, out)
@@ -224,7 +225,7 @@ pub fn chain_9600(iq: Vec<Complex>, sr: f32) -> (Blocks, NCReadStream<Vec<u8>>) 
 
 fn build_chain(c: &C20Case) -> (Blocks, NCReadStream<Vec<u8>>) {
     rustradio::verif::set_stream_size(if c.small_streams { Some(65536) } else { None });
-    let r = if c.chain % 2 == 0 { chain_1200(afsk_1200(c), rate_of(c)) } else { chain_9600(fsk_9600(c), rate_of(c)) };
+    let r = if c.chain % 2 == 0 { chain_1200(afsk_1200(c), rate_of(c)) } else { chain_9600(fsk_9600(c), rate_of(c), c.phase % 2 == 1) };
     rustradio::verif::set_stream_size(None);
     r
 }
@@ -237,16 +238,44 @@ fn pop_all(o: &NCReadStream<Vec<u8>>) -> Vec<Vec<u8>> {
     v
 }
 
+/// One case in four ends, as the documented receivers do, in a `PduWriter` (one file per
+/// frame in a directory) instead of the harness popping the deframer's output.
+pub fn uses_pdu_writer(c: &C20Case) -> bool {
+    c.timing % 4 == 0
+}
+
 pub fn run_on(c: &C20Case, mt: bool) -> Result<Vec<Vec<u8>>, String> {
     let (blocks, out) = build_chain(c);
     let mut g: Box<dyn GraphRunner> = if mt { Box::new(MTGraph::new()) } else { Box::new(Graph::new()) };
     for b in blocks {
         g.add(b);
     }
+    let sc = crate::drip::Scratch::new();
+    let dir = sc.path("pdus");
+    let out = if uses_pdu_writer(c) {
+        std::fs::create_dir(&dir).map_err(|e| format!("harness: {e}"))?;
+        g.add(Box::new(rustradio::blocks::PduWriter::<u8>::new(out, dir.clone())));
+        None
+    } else {
+        Some(out)
+    };
     match catch(|| g.run()) {
         Err(pi) => Err(format!("panic at {}: {}", loc_file(&pi.loc), pi.msg)),
         Ok(Err(e)) => Err(format!("run() error: {e}")),
-        Ok(Ok(())) => Ok(pop_all(&out)),
+        Ok(Ok(())) => match out {
+            Some(out) => Ok(pop_all(&out)),
+            None => {
+                // files are named by their time of writing: numeric order is delivery order
+                let mut names: Vec<(u128, std::path::PathBuf)> = Vec::new();
+                for e in std::fs::read_dir(&dir).map_err(|e| format!("harness: {e}"))? {
+                    let e = e.map_err(|e| format!("harness: {e}"))?;
+                    let n = e.file_name().to_string_lossy().parse::<u128>().unwrap_or(u128::MAX);
+                    names.push((n, e.path()));
+                }
+                names.sort();
+                names.iter().map(|(_, p)| std::fs::read(p).map_err(|e| format!("harness: {e}"))).collect()
+            }
+        },
     }
 }
 
@@ -294,6 +323,9 @@ impl Prop for C20 {
         let sr = rate_of(c);
         ctx.class(format!("chain={chain} rate={sr}"));
         ctx.class(["tail=flags", "tail=silence", "tail=closing+1-flag+silence"][c.tail.min(2) as usize].to_string());
+        if uses_pdu_writer(c) {
+            ctx.class("sink=PduWriter (one file per frame)");
+        }
         let want: Vec<Vec<u8>> = c.frames.iter().map(|f| f.payload()).collect();
         let non_integer_sps = (sr / if c.chain % 2 == 0 { 1200.0 } else { 9600.0 }).fract() != 0.0;
         if want.iter().any(|p| p.len() >= 100) || want.len() >= 3 || non_integer_sps {
@@ -338,7 +370,7 @@ impl Prop for C20 {
         }
     }
     fn rule(&self) -> String {
-        "generated: 1-8 frames with payloads of 10-300 bytes (random and stuffing-heavy), >= 2 flags between frames, 20-100 preamble flags, framed by the independent HDLC framer, then (a) NRZI -> Bell-202 continuous-phase AFSK (1200/2200 Hz) real audio at 44100/48000/50000 Hz or (b) G3RUH scrambler -> NRZI -> continuous-phase 2-FSK +-3 kHz complex baseband at 50000/100000 Hz, with generated start phase, sub-sample symbol timing offset and amplitude 0.3-0.9, followed either by trailing flags (the chains have no end-of-input flush) or - half of the cases - by exact digital silence (16 000 / 64 000 zero samples, with 0-8191 samples of silence in front) right after the last frame's separating flags, in a third of all cases after exactly the closing flag plus one idle flag; fed through the receive chains assembled from library blocks with the examples' parameters (1200: Hilbert(65) -> QuadratureDemod -> FftFilterFloat(low_pass 1100/100) -> add_const(-center) -> SymbolSync(0.5, [0.5,0.5]) -> BinarySlicer -> NrziDecode -> HdlcDeframer(10,1500); 9600: FftFilter(low_pass 12500/100) -> RationalResampler(50k) -> QuadratureDemod -> ZeroCrossing -> BinarySlicer -> NrziDecode -> Descrambler(0x21,0,16) -> HdlcDeframer(10,1500)) on Graph and on MTGraph (real threads), with 4 MB or 64 KiB streams. Oracle: delivered packets == transmitted payloads, each exactly once, in order, identical bytes, nothing else, same on both runners. Non-trivial: a frame >= 100 bytes, or >= 3 frames, or non-integer samples per symbol; distinct = hash of the case.".into()
+        "generated: 1-8 frames with payloads of 10-300 bytes (random and stuffing-heavy), >= 2 flags between frames, 20-100 preamble flags, framed by the independent HDLC framer, then (a) NRZI -> Bell-202 continuous-phase AFSK (1200/2200 Hz) real audio at 44100/48000/50000 Hz or (b) G3RUH scrambler -> NRZI -> continuous-phase 2-FSK +-3 kHz complex baseband at 50000/100000 Hz, with generated start phase, sub-sample symbol timing offset and amplitude 0.3-0.9, followed either by trailing flags (the chains have no end-of-input flush) or - half of the cases - by exact digital silence (16 000 / 64 000 zero samples, with 0-8191 samples of silence in front) right after the last frame's separating flags, in a third of all cases after exactly the closing flag plus one idle flag; fed through the receive chains assembled from library blocks with the examples' parameters (1200: Hilbert(65) -> QuadratureDemod -> FftFilterFloat(low_pass 1100/100) -> add_const(-center) -> SymbolSync(0.5, [0.5,0.5]) -> BinarySlicer -> NrziDecode -> HdlcDeframer(10,1500); 9600: FftFilter(low_pass 12500/100) -> RationalResampler(50k) -> QuadratureDemod -> ZeroCrossing -> BinarySlicer -> NrziDecode -> Descrambler(0x21,0,16) or Descrambler::new_g3ruh -> HdlcDeframer(10,1500)) on Graph and on MTGraph (real threads), with 4 MB or 64 KiB streams; in one case of four the chain ends, as the documented receivers do, in a PduWriter and the delivered frames are the files of its directory in the order of their (time-of-writing) names. Oracle: delivered packets == transmitted payloads, each exactly once, in order, identical bytes, nothing else, same on both runners. Non-trivial: a frame >= 100 bytes, or >= 3 frames, or non-integer samples per symbol; distinct = hash of the case.".into()
     }
     fn assumptions(&self) -> Vec<String> {
         vec![
